@@ -54,7 +54,7 @@ CHECKS = {
             "Sequences are sampled. Hard-link groups are compared up to the choice of which name is recorded as the file. Directory-only changes and symlink time-stamps are outside the documented scope of diff/list."),
     "C12": ("exploration",
             "runtime monitoring with two independent observers per command: before/after snapshot (type, size, mtime, inode, sha-256) of data, parity, content, pool and array root, and strace -f of the real binary reduced to file-system-changing system calls; both compared with a per-command table of allowed targets and with fix's own fixed/status tags",
-            "Each command x option combination is run on healthy, unsynced, damaged and partially lost arrays; every changed path and every mutating system call must fall into the command's documented set (read-only commands: log+lock only; scrub: +content; sync: +parity, never data; fix: only paths it reports, never content; pool: pool dir only; touch: content + sub-second part of zero time-stamps).",
+            "Each command x option combination is run on healthy, unsynced, damaged and partially lost arrays; every changed path and every mutating system call must fall into the command's documented set (read-only commands: log+lock only; scrub: +content; sync: +parity, never data; fix: only paths it reports, never content; pool: pool dir only; touch: content + sub-second part of zero time-stamps). A separate state kind damages stripes beyond the redundancy, lets a plain fix leave NAME.unrecoverable copies and then runs restricted and filtered fixes over them (one range computed to open such a copy without finishing it).",
             "Sampled states and option combinations (ranged commands draw -S/-B from the array size; every non-healthy case runs a ranged fix, one of them ending inside an existing file that lies behind a missing one). Another hard-link name of a file fix reports changes with it and is allowed. atime not observed. strace sees system calls, so libc buffering cannot hide a write; the snapshot sees effects, so an unparsed system call cannot hide a change. Open finding F25 (restricted fix drops the .unrecoverable marker of a file whose bad block it skipped) is reported as KNOWN-FINDING by mechanism key."),
     "C13": ("exploration",
             "runtime monitoring of schedules: differential runs across io-cache depths and seeded schedule perturbation (source hooks), ThreadSanitizer/ASan on io-ring and hostile scan workloads, offline checker of the io.c hook event trace (slot ownership, exactly-once, order), watchdog + SIGINT for termination",
@@ -70,7 +70,7 @@ CHECKS = {
             "Ties at the limit time may be broken either way (ordering is checked, not a particular choice); 8 s time granularity; hash size 16."),
     "C16": ("exploration",
             "differential monitoring against recorded observations of the reference version: vendored arrays written by the pristine pinned tree are checked and repaired by the current tree; digests, CRCs and parity of stored vectors are recomputed through harnesses linked with the current objects and compared with stored values and frozen reference sources",
-            "12 vendored reference arrays (both hash kinds, hash sizes 16/8/4/2, 1..6 parities and z, split layouts, formats 2 and 3, migration in progress, fragmented allocation): check must be clean and fix must reproduce the stored bytes/mtimes/links after removing device subsets (all subsets of size <= N in thorough). 8 seeds x lengths 0..1100 x 2 hash kinds, CRC-32C table and SSE4.2 variants for lengths 0..1100, 180 parity vectors over nd 1..251, np 1..6, both modes.",
+            "12 vendored reference arrays (both hash kinds, hash sizes 16/8/4/2, 1..6 parities and z, split layouts, formats 2 and 3, migration in progress, fragmented allocation): check must be clean and fix must reproduce the stored bytes/mtimes/links after removing device subsets (all subsets of size <= N in thorough). 8 seeds x lengths 0..1100 x 2 hash kinds, CRC-32C table and SSE4.2 variants for lengths 0..1100, 180 parity vectors over nd 1..251, np 1..6, both modes. One reference array has map records out of position order (a retired disk's hole taken by a later disk); every reference array is also checked and repaired after a brand-new empty data disk was added to the configuration.",
             "Reference material generated from the pristine pinned tree (arrays and vectors before any fix commit; the 60 reference-written content files of part (c) later, from a build of a worktree of the pinned commit e695936: each is the reference's test-rewrite of a constructed boundary state together with what the reference prints for it; the tree under test must load it, print the same and write it back bit for bit). 'All future versions' is decided one tree at a time."),
     "C17": ("exploration",
             "runtime monitor with a twin array: the same history is applied to a single-file and a split configuration; split files cut at the independently decoded recorded sizes are compared byte for byte with the single-file parity, plus alignment/size-history invariants, the parity oracle and loss-of-a-split recovery",
@@ -78,7 +78,7 @@ CHECKS = {
             "Limits come from the deterministic --test-parity-limit function. Stripes that hold no file block are excluded from the byte comparison (their parity is unspecified). Open finding F18 is reported as KNOWN-FINDING."),
     "C18": ("exploration",
             "runtime monitor with a reference model of the documented rules (independent glob matcher): direct calls of the real filter functions through a harness linked with the current objects, plus process-level sync/list and fix-under-filter runs compared with the model and with snapshots",
-            "Random rule lists (include/exclude, file and directory forms, rooted and unrooted, *, ?, [], [!], escapes) x random paths: ~10^5 (quick) direct evaluations of filter_path/filter_subdir/filter_emptydir against the model; random rule lists x trees synced and listed; fix with -f/-d/-m on damaged arrays must write exactly the selected missing files with the right bytes.",
+            "Random rule lists (include/exclude, file and directory forms, rooted and unrooted, *, ?, [], [!], escapes) x random paths: ~10^5 (quick) direct evaluations of filter_path/filter_subdir/filter_emptydir against the model; random rule lists x trees synced and listed; fix with -f/-d/-m on damaged arrays must write exactly the selected missing files with the right bytes; recorded symlinks (valid and dangling) that are removed or re-pointed are entries of the selection like any other.",
             "Pattern grammar restricted to forms whose meaning is unambiguous in POSIX and the manual. Empty directories produced by filtering are not judged. Open finding F20 (directory pruning vs 'first match decides') is reported as KNOWN-FINDING."),
     "C19": ("exploration",
             "runtime monitor: decoy files (same name/path, size, time-stamp, other bytes) for copy detection, import directories and duplicate search; after each command every block recorded synced must carry the frozen-reference hash of the bytes the harness wrote, the parity oracle must hold, and fix may only produce recorded versions",
@@ -86,7 +86,7 @@ CHECKS = {
             "Whether copy detection picks a decoy depends on scan order; evidence counts how many were actually matched. Hash sizes 16/8/4/2: decoys are generated collision-free under the truncated hash, arrays whose own blocks collide are counted trivial."),
     "C20": ("exploration",
             "runtime monitor: every derived view (list tags and stdout, dup, status, pool tree) compared with the independently decoded content file and the harness's byte-level model; escaping inverted; per-tag line counts as a forged-line detector",
-            "Arrays with hostile and tag-lookalike names, duplicate groups across disks, zero sub-second stamps, pre-existing pool contents, with and without a share prefix. list/dup/status log tags and stdout are parsed back (esc_tag / shell escaping inverted) and must give exactly the recorded names, sizes, links; dup pairs must induce the content-equality partition; the pool dir must hold exactly one resolving link per recorded name with stale links and empty dirs gone and foreign files kept - after the first pool run and after two further runs that follow removals, moves of files and links across disks, file-to-link replacement and retargeted links.",
+            "Arrays with hostile and tag-lookalike names, duplicate groups across disks, zero sub-second stamps, pre-existing pool contents, with and without a share prefix. list/dup/status log tags and stdout are parsed back (esc_tag / shell escaping inverted) and must give exactly the recorded names, sizes, links; dup pairs must induce the content-equality partition; the pool dir must hold exactly one resolving link per recorded name with stale links and empty dirs gone and foreign files kept - after the first pool run and after two further runs that follow removals, moves of files and links across disks, file-to-link replacement and retargeted links. dup is also run on arrays left by an interrupted sync: no file with pending blocks may appear in a pair, reported pairs must have equal bytes.",
             "dup asserted only for hash size 16 outside a migration. Open findings F7b/F7c (newline in names on stdout) are reported as KNOWN-FINDING."),
 }
 
